@@ -233,6 +233,39 @@ def fieldsFeatures : Fields → List String
     ++ tyFeatures t ++ fieldsFeatures rest
 end
 
+/-- interesting states of the top-level fields of one input (generator quality counters) -/
+def inputFeatures (c : Cfg) : Fields → Obj → List String
+  | .nil, _ => []
+  | .cons name tag t rest, m =>
+    (match tag with
+     | none => []
+     | some tv =>
+       match parseTagC c name tv with
+       | .ok (key, some o) =>
+         match getKey key m with
+         | none =>
+           (if !o.default.isEmpty then ["in-default-filled"] else [])
+           ++ (if Spec.declOptional o m then ["in-absent-optional"] else [])
+           ++ (if o.optional && !o.optionalDep.isEmpty && !Spec.declOptional o m then ["in-absent-dep-violated"] else [])
+         | some .null => ["in-null"]
+         | some j =>
+           (match o.range, Spec.numOf (fromArrayValue c t.isSlice j) with
+            | some r, some q =>
+              (if Dec.eqv q r.left || Dec.eqv q r.right then
+                 [if (Dec.eqv q r.left && r.leftInc) || (Dec.eqv q r.right && r.rightInc) then "in-range-at-closed-bound"
+                  else "in-range-at-open-bound"] else [])
+              ++ (if Spec.Range.contains r q then ["in-range-inside"] else ["in-range-outside"])
+              ++ (if !o.optionalDep.isEmpty then ["in-dep+range-supplied"] else [])
+            | some _, none => ["in-range-nonnumeric"]
+            | none, _ => [])
+           ++ (if !o.options.isEmpty then
+                 [if Spec.optionsOK o (derefKind t) (fromArrayValue c t.isSlice j) then "in-options-member" else "in-options-nonmember"]
+               else [])
+           ++ (if o.optional && !o.optionalDep.isEmpty then ["in-dep-supplied"] else [])
+       | .ok (key, none) => if (getKey key m).isNone then ["in-absent-required"] else []
+       | .error _ => [])
+    ++ inputFeatures c rest m
+
 def dedup (l : List String) : List String :=
   l.foldl (fun acc x => if acc.contains x then acc else acc ++ [x]) []
 
@@ -246,6 +279,9 @@ def runLine (r : Report) (sec : Nat) (l : Line) : Report :=
     r := r.addCover (if op.cfg.canonical then "mode-header" else if op.cfg.fromArray then "mode-form"
                      else if op.cfg.fromString then "mode-fromstring" else "mode-json")
     for f in dedup (tyFeatures op.ty) do r := r.addCover f
+    match op.ty, op.input with
+    | .struct fs, .obj m => for f in dedup (inputFeatures op.cfg.repaired fs m) do r := r.addCover f
+    | _, _ => r := r.addCover "in-toplevel-not-object"
     let impl := joinSp l.obs
     match l.obs with
     | "ok" :: vt =>
